@@ -73,6 +73,12 @@ def step (_ : Unit) (ws : List String) : Unit × String :=
       match parseROps? ops with
       | some ops => "ok " ++ showQueues (routerRun ops)
       | none => "bad-op"
+    | ["rstream", regs, chunks] =>
+      match parseNatList? regs, parseChunks? chunks with
+      | some regs, some sock =>
+        let (q, alive) := routerStream regs sock
+        s!"ok {showQueues q} {if alive then "alive" else "died"}"
+      | _, _ => "bad-op"
     | ["up", h, data] =>
       match h.toNat?, ofHex? data with
       | some h, some d =>
